@@ -4,6 +4,7 @@ From NW Require Import Base.Bytes Model.SchemaTypes Gen.Schema Model.Codec Model
 From NW Require Import Proofs.ServerLib Proofs.ServerRoute Proofs.ServerHandlers Proofs.ServerSteps Proofs.ServerPhases.
 From NW Require Import Proofs.ServerInvBase Proofs.ServerInv Proofs.ServerUniq Proofs.ServerInvCor.
 From NW Require Import Proofs.ServerDelivery Proofs.ServerEvents Proofs.ServerIdentity.
+From NW Require Import Gen.LockLint.
 
 Theorem C02_complete_exactly_once :
   forall (cfg : scfg) (h : N) (req : msg) (p : option (list N)) (c : ctx) 
@@ -80,3 +81,9 @@ Proof. exact broadcast_each_once. Qed.
 Theorem C02_router_wellformed :
   forall (cfg : scfg) (s : state), Inv cfg s -> router_wf (router s).
 Proof. exact inv_router_wf. Qed.
+
+(* Deliveries look receivers up in sharded maps.  translator/locklint.py lists, from the CURRENT source, the map accesses
+   that can make a present receiver disappear for an instant: guards alive across an await and non-blocking (try_*)
+   lookups, which report a shard that is merely being written as unavailable.  The list must be empty. *)
+Theorem C02_source_no_lossy_map_lookup : NW.Gen.LockLint.guard_across_await = [].
+Proof. reflexivity. Qed.
